@@ -3,6 +3,7 @@ CONSTANTS
   MaxReq = 1
   Pool = "full"
   WithBad = TRUE
+  KeepStale = FALSE
 INVARIANT RoundTrip
 INVARIANT StatusByMode
 INVARIANT Emit
